@@ -7,6 +7,7 @@
 package publisher
 
 import (
+	"sync"
 	"sync/atomic"
 	"time"
 
@@ -31,6 +32,11 @@ type Subscriber[T any] struct {
 	publisher    *Publication[T]
 	timeout      time.Duration
 	onTimeout    func(T)
+	// done is closed first when the subscriber is closed so that pending deliveries give up;
+	// deliveries hold sendMux for reading while they may send, close takes it for writing before closing receiveCh
+	done      chan struct{}
+	sendMux   sync.RWMutex
+	closeOnce sync.Once
 }
 
 type SubscriberOption[T any] func(sub *Subscriber[T])
@@ -55,6 +61,7 @@ func (p *Publication[T]) Subscribe(buffer int, opts ...SubscriberOption[T]) *Sub
 		receiveCh:    make(chan T, buffer),
 		publisher:    p,
 		timeout:      defaultTimeout,
+		done:         make(chan struct{}),
 	}
 
 	for _, opt := range opts {
@@ -73,13 +80,24 @@ func (p *Publication[T]) Publish(message T) {
 	for _, sub := range p.subscribers.Iterate() {
 		if sub.filter == nil || sub.filter(message) {
 			go func() {
+				sub.sendMux.RLock()
+				timedOut := false
 				select {
-				case sub.receiveCh <- message:
-					// continue
-				case <-time.After(sub.timeout):
-					if sub.onTimeout != nil {
-						sub.onTimeout(message)
+				case <-sub.done:
+					// subscriber closed: nothing is delivered after the close
+				default:
+					select {
+					case sub.receiveCh <- message:
+						// continue
+					case <-time.After(sub.timeout):
+						timedOut = true
+					case <-sub.done:
+						// continue
 					}
+				}
+				sub.sendMux.RUnlock()
+				if timedOut && sub.onTimeout != nil {
+					sub.onTimeout(message)
 				}
 			}()
 		} else if sub.onFiltered != nil {
@@ -90,18 +108,28 @@ func (p *Publication[T]) Publish(message T) {
 
 // Close closes the publication and all subscriber channels.
 func (p *Publication[T]) Close() {
-	for _, listener := range p.subscribers.Iterate() {
-		close(listener.receiveCh)
+	for id, listener := range p.subscribers.Iterate() {
+		listener.closeChannel()
+		p.subscribers.Delete(id)
 	}
-	p.subscribers.Clear()
 }
 
 // unsubscribe removes a subscriber from the publication.
 func (p *Publication[T]) unsubscribe(subscriberID uint64) {
 	if s, ok := p.subscribers.Load(subscriberID); ok {
-		close(s.receiveCh)
+		s.closeChannel()
 		p.subscribers.Delete(subscriberID)
 	}
+}
+
+// closeChannel closes the receive channel exactly once, after every pending delivery has given up.
+func (s *Subscriber[T]) closeChannel() {
+	s.closeOnce.Do(func() {
+		close(s.done)
+		s.sendMux.Lock()
+		close(s.receiveCh)
+		s.sendMux.Unlock()
+	})
 }
 
 // Close closes the subscriber's receive channel and unsubscribes them from the publication.
